@@ -131,6 +131,24 @@ P1 = [
     (r"(x*)y", "UseDFA", "q cap"),
     (r"(a*)+", "UseNFA", "cap e"),
     (r"[a-z]+?[0-9]+", "UseCompositeSearcher", "q"),    # lazy inside a composite
+    # --- capture shapes: a group completed by a FAILED earlier attempt, then a later seed wins
+    (r"(a)x|b", "UseDFA", "q cap"),
+    (r"(?:(a)xy|b)", "UseDFA", "q cap"),
+    (r"(a+?)(b*)", "UseDFA", "q cap"),
+    (r"(\w+)@(?:(\w*)\.)+c", "UseReverseSuffix", "cap"),
+    (r"(\d+)-(\d+)|([a-z]+)", "UseBoth", "cap"),
+    (r"(a)|(b)|(c)", "UseDFA", "q cap"),
+    (r"((a)|b)+", "UseDFA", "q cap"),
+    (r"(a*)(a|b)", "UseDFA", "cap"),
+    # --- fast-path corners reported on the pinned tree
+    (r"[ax]+[bz]+[ay]+[cw]+", "UseCompositeSearcher", ""),
+    (r"[a-z]{0}[0-9]+", "UseCompositeSearcher", "q"),
+    (r".*?\.tx", "UseReverseSuffix", "q"),
+    (r"[0-5]+\.\d+", "UseDigitPrefilter", "q"),
+    (r"^(\d+|UU*|he)", "UseBranchDispatch", "q cap"),
+    (r"\d{2}:\d{2}", "UseDigitPrefilter", "q"),
+    (r"[a-z]+(?:\b-){1,2}en", "UseNFA", ""),
+    (r"\d:\d", "UseDigitPrefilter", "q"),               # bounded leading digit class (no digit-run skipping allowed)
 ]
 
 # Patterns whose language involves "any character" constructs: the pinned tree
@@ -158,3 +176,31 @@ def entries(tier, tag=None):
 def posix_ok(p):
     """Patterns the POSIX ERE syntax accepts (no Perl classes, lazy quantifiers, flags, \\b)."""
     return not re.search(r"\\[dDwWsSbBzA]|\?\?|\*\?|\+\?|\}\?|\(\?", p)
+
+
+# Windows: concrete pads around the symbolic bytes, so that short symbolic parts reach
+# matches of longer patterns and offsets inside runs. pattern -> [(pre, post)]
+WINDOWS = {
+    r"\d:\d": [("1", ""), ("11", "")],
+    r"\d{2}:\d{2}": [("11", "30"), ("1", "0")],
+    r"^ab.*cd$": [("ab", ""), ("", "cd"), ("ab", "d")],
+    r"(?m)^/.*\.js": [("/a", ""), ("x\n/", "s")],
+    r"[a-z]+co[a-z]+": [("ac", ""), ("a", "a")],
+    r"\w+@\w+\.\w+": [("a@", ""), ("a", "b.c")],
+    r"[a-z]+\.tx": [("a", "x"), ("", "tx")],
+    r".*\.(tx|lo|md)": [("a.", ""), ("", "d")],
+    r"^ab$": [("a", ""), ("", "")],
+    r"(\d+)-(\d+)": [("1", ""), ("", "2")],
+    r"\d+\.\d+": [("1", ""), ("", "5")],
+    r"foo|bar": [("f", ""), ("xb", "")],
+    r"abc|bcd": [("a", ""), ("", "d")],
+    r"(?i)abc": [("A", ""), ("", "C")],
+    r"[a-c]+aa[a-c]+": [("a", ""), ("", "a")],
+    r"^(ab|cd|ef)": [("", "x")],
+    r"^a.*c$": [("a", "")],
+    r".*co.*": [("c", "")],
+}
+
+
+def windows(p):
+    return WINDOWS.get(p, [])
